@@ -122,7 +122,8 @@ PROPERTY_LINE = """the single property above. Read the code that implements it (
  (a) TWO COOPERATING SITES: two small edits in different functions (or one edit whose effect only shows through another, unchanged, function) that each look fine alone;
  (b) a HISTORY: the break only shows after a particular sequence of operations (create, then append/rename/re-create/merge/copy, then read), on the second use of an object, or on the second call in a process;
  (c) a FAULT or BOUNDARY POINT: an exception, an interruption, an empty or final chunk, a block/chunk/buffer edge at one particular position;
- (d) an unusual but valid INPUT SHAPE or OPTION COMBINATION that no ordinary use has."""
+ (d) an unusual but valid INPUT SHAPE or OPTION COMBINATION that no ordinary use has;
+ (e) an unusual but valid ARGUMENT TYPE: pandas nullable / unsigned / 32-bit integer columns, categoricals with unused categories, read-only or non-contiguous numpy arrays, numpy scalars where Python ints are usual, pathlib.Path or bytes where str is usual, tuples vs lists, open h5py handles or groups where a path is usual, generators vs lists."""
 
 
 def property_round(root, here, props):
